@@ -12,5 +12,6 @@ Extraction "extract/ModelPipeline.ml"
   StaticRules.category
   LexResolve.lexical LexResolve.same_binding_structure LexResolve.no_early_capture
   RulesWf.erase_ids
+  Pipeline.tok_number_ok
   Pipeline.front Pipeline.accepted Pipeline.rejecting_phase Pipeline.rejection_of Pipeline.ids
   Pipeline.spec_of_front Pipeline.impl_of_front Pipeline.run_source Pipeline.run_source_impl.
